@@ -383,7 +383,9 @@ pub fn check_chunker(case: &StreamCase) -> CaseResult {
                     }
                     q = end;
                     held.push((s, start, end));
-                    if !case.nudges.is_empty() {
+                    // (only for the first chunks: every held chunk pins its whole arena chunk, and a
+                    // flush after each of tens of thousands of them would pin gigabytes)
+                    if !case.nudges.is_empty() && held.len() <= 64 {
                         codec::apply_nudge(&mut arena, case.nudges[held.len() % case.nudges.len()]);
                     }
                 }
